@@ -1,0 +1,40 @@
+//go:build verif
+
+package msghub
+
+import (
+	"sync"
+	"time"
+)
+
+// VerifListenerCount reports how many listeners are registered, read on the hub goroutine (queued
+// behind everything enqueued before the call).  -1 if the hub does not answer within 2 s or has stopped.
+func (hub *Hub) VerifListenerCount() int {
+	res := make(chan int, 1)
+	go hub.enqueue(func(h *Hub) { res <- len(h.listeners) })
+	select {
+	case n := <-res:
+		return n
+	case <-hub.done:
+		return -1
+	case <-time.After(2 * time.Second):
+		return -1
+	}
+}
+
+// VerifHold parks the hub goroutine inside a queued operation (as a slow listener would) until
+// release is called or 10 s pass.  entered is closed once
+// the hub goroutine is parked; everything enqueued after that stays in the queue until release.
+func (hub *Hub) VerifHold() (entered <-chan struct{}, release func()) {
+	in := make(chan struct{})
+	out := make(chan struct{})
+	var once sync.Once
+	go hub.enqueue(func(*Hub) {
+		close(in)
+		select {
+		case <-out:
+		case <-time.After(10 * time.Second):
+		}
+	})
+	return in, func() { once.Do(func() { close(out) }) }
+}
